@@ -249,8 +249,9 @@ def _mut_lines(form: str, u: str, g: int, ind: str) -> list:
                    f"    elif isinstance(nv_{u}, dict):",
                    f"        nv_{u}['n'] = {g}"],
     }[form]
-    return [f"{ind}if {ac} is not None:"] + [f"{ind}    {b}" for b in body] + \
-           [f"{ind}    sim.mark('cfgmut', {u!r}, {g}, inst_{u})"]
+    # (the 'cfgmut' marker only when the write changed something: e.g. no nested value to write to, key already set)
+    return [f"{ind}if {ac} is not None:", f"{ind}    rp_{u} = repr({ac})"] + [f"{ind}    {b}" for b in body] + \
+           [f"{ind}    if repr({ac}) != rp_{u}:", f"{ind}        sim.mark('cfgmut', {u!r}, {g}, inst_{u})"]
 
 
 # ------------------------------------------------------------------ the files on disk (model + real)
